@@ -116,6 +116,8 @@ def eff_pool(X, Y):
         ((eff("inc", m, ("r", 1, 2)),), 0),
         # two increases of ONE parameterised ground fluent in one action
         ((eff("inc", c(X), I(1)), eff("inc", c(X), I(1), b)), 1),
+        # a finite decimal with more than 10 decimal places (1/2048 = 0.00048828125)
+        ((eff("inc", m, ("r", 1, 2048)),), 0),
     ]
 
 
